@@ -28,8 +28,9 @@
       - the only crdIpam-level operation is a configuration reload whose deletions of de-configured
         objects all succeed; a reload and a restart keep every IP configured that a not-finished pod of
         the API server holds in its binding annotation;
-      - nothing else: filter, event, resync, pod-IP sync steps and all other environment steps are
-        unconstrained. *)
+      - a pod-IP sync is handed a pod object whose names and UID are as above, and ANY such object: the informer's
+        current one or one shown at an earlier point of the history (an earlier incarnation; Props/C04.v, F16);
+      - nothing else: filter, event, resync steps and all other environment steps are unconstrained. *)
 From Coq Require Import String.
 From stdpp Require Import gmap.
 From Galaxy.Base Require Import Strs.
